@@ -810,6 +810,34 @@ impl<'a> VisitMut for Rewriter<'a> {
                 }
             }
         }
+        // R30: `let (X_tx, X_rx) = mpsc::channel(cap)` of the two protocol channels: which of the two fresh channels plays which
+        // role is fixed by how the code goes on to use the pair, not by the order of the two statements - the role is read off the
+        // binder (`..ready..` / `..done..`); all later uses are checked against that role by the contracts, so any consistent
+        // labelling of two fresh channels is sound. Other binders (the result channel) keep the generic constructor.
+        if self.world && self.effects.contains(&"channel".to_string()) {
+            if let Stmt::Local(l) = st {
+                let role = match &l.pat {
+                    Pat::Tuple(t) => match t.elems.first() {
+                        Some(Pat::Ident(pi)) => { let n = pi.ident.to_string(); if n.contains("ready") { Some("channel_ready") } else if n.contains("done") { Some("channel_done") } else { None } }
+                        _ => None,
+                    },
+                    _ => None,
+                };
+                if let (Some(role), Some(init)) = (role, l.init.as_mut()) {
+                    if let Expr::Call(c) = &mut *init.expr {
+                        if let Expr::Path(p) = &mut *c.func {
+                            if let Some(last) = p.path.segments.last_mut() {
+                                if last.ident == "channel" {
+                                    last.ident = id(role);
+                                    c.args.push(parse_quote! { Tracked(w) });
+                                    self.fired.push(format!("R30-{}", role));
+                                }
+                            }
+                        }
+                    }
+                }
+            }
+        }
         visit_mut::visit_stmt_mut(self, st);
     }
 
